@@ -230,4 +230,5 @@ def cost(cfg):
         return 0
     K, M = cfg["K"], cfg["M"]
     per = {None: math.factorial(K) + 2 * K + 7 * M, 0: 1, 1: math.factorial(K), 2: 2 * K, 3: 7 * M}[cfg.get("branch")]
-    return per * (1 + M)
+    deep = cfg.get("tier") != "quick" and K * M <= 2 and cfg["l"] <= 2
+    return per * (1 + M) * (cfg["l"] + 1) ** 2 * (8 if deep else 1)
